@@ -22,6 +22,7 @@ fn main() {
         "thresholds" => for s in &scen_build::thresholds(seed, thorough) { sink.build(s); },
         "maskgroups" => for s in &scen_build::maskgroups(seed, thorough) { sink.build(s); },
         "candgroups" => for s in &scen_build::candgroups(seed, thorough) { let o = run_build(s); let id = sink.id(); let mut ev = build_event(id, s, &o); ev["pen"] = json!(1); sink.emit(&ev); },
+        "lengths" => for s in &scen_build::lengths(seed, thorough) { sink.build(s); },
         "modes" => for s in &scen_build::modes(seed, thorough) { sink.build(s); },
         "total" => for s in &scen_build::total(seed, thorough) { sink.build(s); },
         "corrupt" => for (s, errs) in &scen_build::corrupt_specs(seed, thorough) {
